@@ -213,7 +213,8 @@ def tlc(tla, cfg, workers=None, simulate=None, depth=None, env=None, timeout=360
             res.__dict__.update(d)
             res.cached = True
             return res
-    run_id = "%d_%d" % (os.getpid(), int(time.time() * 1000) % 100000000)
+    import uuid
+    run_id = "%d_%s" % (os.getpid(), uuid.uuid4().hex[:12])
     meta = os.path.join(BUILD, "tlc", run_id)
     os.makedirs(meta, exist_ok=True)
     libs = (lib_dirs or []) + [os.path.dirname(tla), os.path.join(SPEC, "lib"), os.path.join(SPEC, "mo"), SPEC]
